@@ -505,7 +505,7 @@ class C08(runner.Check):
     rule = ('random programs: 2-3 (thorough: up to 4) concurrently awaited triggers on 1-3 models of a flat AsyncMachine or a '
             'HierarchicalAsyncMachine, queued False/True/"model", optional on_exception, protected tasks, callbacks in every '
             'slot registered as plain function / coroutine / coroutine suspending on harness futures (0-2 suspension points '
-            'per event), raising callbacks, failing conditions, triggers awaited from callbacks (nested up to depth 2), '
+            'per event), raising callbacks (the scripted exception is also a KeyError / ValueError / AttributeError by family), failing conditions, triggers awaited from callbacks (nested up to depth 2), '
             'remove_model; models attached through the constructor list / ONE add_model([..]) call / one add_model call per model / '
             'add_model from a callback during the run (then triggered from that callback); arrival at arbitrary loop iterations '
             '(top-level trigger k starts after delays[k] bare sleep(0) trips; an arrival-sweep stream tries every delay up to the '
